@@ -41,10 +41,13 @@ RULE = ("Hypothesis-generated recipes (0-3 top-level sections, nesting <= 3, 0-4
         "(absent / all / some), self-links as old alias hard links, file id kept / removed / invalid. "
         "Oracles: recipe model (values, units, definitions, data, ticks = data, unit/label) against the "
         "read-only walk of the old file, the walk after upgrade and raw h5py inspection; walk-to-walk "
-        "equality before/after with properties as a name-keyed map; per-value extras per the documented "
-        "rule (attribute or <name>.<extra> companion). Interruption: the k-th write-open of "
+        "equality before/after with properties as a name-keyed map; every per-value extra that was set "
+        "must be retrievable as a <name>.<extra> companion property holding the generated per-value list "
+        "or (one common uncertainty) as the uncertainty attribute. Interruption: the k-th write-open of "
         "nixio.cmd.upgrade raises, for EVERY k in 1..n+1 (n = write-opens of the uninterrupted run), "
-        "resumed by a fresh file_upgrade and by a task list collected before the interruption. "
+        "resumed by a fresh file_upgrade (every k) and by a task list collected before the interruption "
+        "(every k if n <= 6, else k in {1, 2, mid, n-1, n, n+1}); plus upgrade of the upgraded and of the "
+        "never-downgraded file (True, SHA-256 unchanged). "
         "Non-trivial: >= 2 old properties or >= 1 alias descriptor, and 1 < k <= n; distinct by case hash.")
 ASSUMPTIONS = [
     "the old layout is synthesised from the readers in nixio (property.py:149-172,232-244; "
@@ -64,6 +67,11 @@ ASSUMPTIONS = [
     "kill; propagates) raised by the k-th h5py.File(..., mode != 'r') of nixio.cmd.upgrade, i.e. "
     "between conversion steps; interruption inside a step is not generated",
     "the state of a half-upgraded file as seen by a read-only open is unspecified and not checked",
+    "upgraded properties legitimately get new ids / timestamps / position, the new dimension link a new "
+    "id, a file without valid id a new one; extras that were never set (all-zero uncertainty, all-empty "
+    "strings) need not be represented after the upgrade",
+    "processing a task list that was collected before another run converted (part of) the file must "
+    "be harmless (upgrade.py:64-68,169-173 re-check per object: 'file may have been submitted twice')",
 ]
 
 VERSIONS = [[1, 0, 0], [1, 1, 0], [1, 1, 1], [1, 2, 0]]
@@ -1137,7 +1145,7 @@ def _valid(case):
 # ====================================================================== runner contract
 
 def shards(tier, seed):
-    nshards, per = (48, 4) if tier == "quick" else (192, 8)
+    nshards, per = (32, 4) if tier == "quick" else (192, 8)
     return [{"n": per, "seed": seed * 1000 + i} for i in range(nshards)]
 
 
